@@ -67,11 +67,33 @@ type Opts struct {
 	Meta   bool   `json:"meta"`
 }
 
+// Step is an export made between the judged exports of a case (its output is not judged): the history dimension.
+type Step struct {
+	K string `json:"k"`           // hq: HighQualityExportOptions(); mutdefault: the struct DefaultExportOptions() returned, customised with O; struct: own struct with O; nilexp: NewExporter(nil), nil options
+	O Opts   `json:"o,omitempty"` // mutdefault, struct
+}
+
 type Case struct {
 	Mode   string   `json:"mode"`  // generator mode (label only)
 	Feats  []string `json:"feats"` // generator features (labels only; triggers look at the content)
 	Blocks []Block  `json:"blocks"`
 	O      Opts     `json:"o"`
+	// Via: how the requested options reach the exporter. "" = a struct of the caller's own (a value copy of the
+	// defaults with O set); "default" = DefaultExportOptions() as returned; "nilexp" = NewExporter(nil) and nil
+	// options; "hq" = HighQualityExportOptions(). For the last three O holds the documented values.
+	Via  string `json:"via,omitempty"`
+	Hist []Step `json:"hist,omitempty"` // exports with other options between the first export and the repeats
+}
+
+// documented defaults (DefaultExportOptions) and what HighQualityExportOptions changes of the fields that shape the output
+var defaultOpts = Opts{GFM: true, Setext: false, Bullet: "-", Emph: "*", Wrap: false, MaxLen: 80, Meta: false}
+
+func viaOpts(via string) Opts {
+	o := defaultOpts
+	if via == "hq" {
+		o.Meta = true
+	}
+	return o
 }
 
 func (b Block) paraText() string {
@@ -172,8 +194,7 @@ func build(c Case) (*document.Document, error) {
 	return d, nil
 }
 
-func exportOpts(o Opts) *markdown.ExportOptions {
-	e := markdown.DefaultExportOptions()
+func setOpts(e *markdown.ExportOptions, o Opts) *markdown.ExportOptions {
 	e.UseGFMTables = o.GFM
 	e.UseSetext = o.Setext
 	e.BulletListMarker = o.Bullet
@@ -182,6 +203,27 @@ func exportOpts(o Opts) *markdown.ExportOptions {
 	e.MaxLineLength = o.MaxLen
 	e.IncludeMetadata = o.Meta
 	return e
+}
+
+// exportOpts: a struct of the caller's own (value copy of the defaults, every output-shaping field set).
+func exportOpts(o Opts) *markdown.ExportOptions {
+	e := *markdown.DefaultExportOptions()
+	return setOpts(&e, o)
+}
+
+// export performs one export the way the case asks for its options.
+func export(d *document.Document, via string, o Opts) (string, error) {
+	switch via {
+	case "default":
+		return markdown.NewExporter(nil).ExportToString(d, markdown.DefaultExportOptions())
+	case "nilexp":
+		return markdown.NewExporter(nil).ExportToString(d, nil)
+	case "hq":
+		return markdown.NewExporter(nil).ExportToString(d, markdown.HighQualityExportOptions())
+	case "mutdefault": // a caller customising the struct it was handed
+		return markdown.NewExporter(nil).ExportToString(d, setOpts(markdown.DefaultExportOptions(), o))
+	}
+	return markdown.NewExporter(nil).ExportToString(d, exportOpts(o))
 }
 
 // ---------------------------------------------------------------------------------------------
@@ -203,7 +245,7 @@ func expected(c Case) []Blk {
 	for _, b := range c.Blocks {
 		switch b.K {
 		case "table":
-			x := Blk{Kind: "table"}
+			x := Blk{Kind: "table", HdrBold: b.HdrBold}
 			for i, row := range b.Cells {
 				var ts, fs []string
 				for _, cell := range row {
@@ -537,8 +579,7 @@ func run(c Case) *kit.Result {
 		_ = st
 		return res
 	}
-	o := exportOpts(c.O)
-	if p, st := kit.Try(func() { md1, err = markdown.NewExporter(nil).ExportToString(doc, o) }); p != nil {
+	if p, st := kit.Try(func() { md1, err = export(doc, c.Via, c.O) }); p != nil {
 		res.Fail("C20.E0", "ExportToString panicked: %v [%s]", p, st)
 		return res
 	}
@@ -570,7 +611,14 @@ func run(c Case) *kit.Result {
 	}
 	res.Eval("C20.E2")
 	if d := diffUnits(units(want, false), units(got, false)); d != "" {
-		res.Fail("C20.E2", "text: %s | markdown: %q", d, md1)
+		tag := explain(c, func(e effect) bool { return e.seq1 != nil }, func(sel []effect) bool {
+			w := want
+			for _, e := range sel {
+				w = e.seq1(w)
+			}
+			return diffUnits(units(w, false), units(got, false)) == ""
+		})
+		res.Fail("C20.E2", "%stext: %s | markdown: %q", tag, d, md1)
 	}
 	// E2r: the same demand on the raw string, independent of any Markdown reading and therefore judged on every
 	// case, hostile classes included: delimiters, escapes, markers and fences are punctuation, so the letters and
@@ -581,7 +629,22 @@ func run(c Case) *kit.Result {
 	}
 	res.Eval("C20.E3")
 	if d := diffFormat(units(want, true), units(got, true)); d != "" {
-		res.Fail("C20.E3", "formatting: %s | markdown: %q", d, md1)
+		tag := explain(c, func(e effect) bool { return e.seq1 != nil }, func(sel []effect) bool {
+			w := want
+			for _, e := range sel {
+				w = e.seq1(w)
+			}
+			return diffFormat(units(w, true), units(got, true)) == ""
+		})
+		res.Fail("C20.E3", "%sformatting: %s | markdown: %q", tag, d, md1)
+	}
+
+	// history: exports of the same document with other options, obtained in the ways callers obtain them
+	for i, h := range c.Hist {
+		if p, st := kit.Try(func() { _, _ = export(doc, h.K, h.O) }); p != nil {
+			res.Fail("C20.E0", "export %d of the history (%s) panicked: %v [%s]", i, h.K, p, st)
+			return res
+		}
 	}
 
 	// round trip through the library's own converter
@@ -607,7 +670,7 @@ func run(c Case) *kit.Result {
 		res.Fail("C20.E4", "%sround trip: %s | body: %s | re-imported: %s | markdown: %q", tag, d, descrAll(want), descrAll(back), md1)
 	}
 	var md2 string
-	if p, st := kit.Try(func() { md2, err = markdown.NewExporter(nil).ExportToString(doc2, o) }); p != nil {
+	if p, st := kit.Try(func() { md2, err = export(doc2, c.Via, c.O) }); p != nil {
 		res.Fail("C20.E0", "second ExportToString panicked: %v [%s]", p, st)
 		return res
 	}
@@ -627,6 +690,19 @@ func run(c Case) *kit.Result {
 			return a == b
 		})
 		res.Fail("C20.E5", "%sfixpoint: export(convert(export(D))) differs from export(D): first %q, second %q", tag, md1, md2)
+	}
+	// E6: the same document exported again with the same requested options gives the same bytes, whatever
+	// was exported in between (no mask).
+	var md3 string
+	if p, st := kit.Try(func() { md3, err = export(doc, c.Via, c.O) }); p != nil {
+		res.Fail("C20.E0", "repeated ExportToString panicked: %v [%s]", p, st)
+		return res
+	}
+	res.Eval("C20.E6")
+	if err != nil {
+		res.Fail("C20.E6", "repeated export failed: %v", err)
+	} else if md3 != md1 {
+		res.Fail("C20.E6", "stability: the same document exported again with the same options (obtained via %q) after %d other exports differs: first %q, again %q", c.Via, len(c.Hist), md1, md3)
 	}
 	attribute(c, res)
 	return res
@@ -697,6 +773,26 @@ func describe(c Case, res *kit.Result) {
 	if fmtRuns >= 2 {
 		res.Label("formatted-runs>=2")
 	}
+	if hasEdgeBlankFormatted(c) {
+		res.Label("edge-blank")
+		if hasUnicodeEdgeBlank(c) {
+			res.Label("edge-blank:unicode")
+		}
+	}
+	if !c.O.GFM && listThenTable(c) {
+		res.Label("simple-table-after-item")
+	}
+	if c.Via == "" {
+		res.Label("via:own-struct")
+	} else {
+		res.Label("via:" + c.Via)
+	}
+	for _, h := range c.Hist {
+		res.Label("hist:" + h.K)
+	}
+	if len(c.Hist) > 0 {
+		res.Label("hist:any")
+	}
 	o := c.O
 	if !o.GFM {
 		res.Label("opt:simple-tables")
@@ -743,6 +839,33 @@ func describe(c Case, res *kit.Result) {
 	res.Shape = strings.Join(shape, "|") + fmt.Sprintf("|%v%v%s%s%v%d%v", o.GFM, o.Setext, o.Bullet, o.Emph, o.Wrap, o.MaxLen, o.Meta) + "|" + strings.Join(trig, ",")
 }
 
+func hasUnicodeEdgeBlank(c Case) bool {
+	uni := func(s string) bool {
+		r := []rune(s)
+		return len(r) > 0 && ((r[0] > 127 && unicode.IsSpace(r[0])) || (r[len(r)-1] > 127 && unicode.IsSpace(r[len(r)-1])))
+	}
+	for _, b := range c.Blocks {
+		if b.K == "h" && uni(b.T) {
+			return true
+		}
+		for _, r := range b.Runs {
+			if r.mask() != 0 && uni(r.T) {
+				return true
+			}
+		}
+	}
+	return false
+}
+
+func listThenTable(c Case) bool {
+	for i := 1; i < len(c.Blocks); i++ {
+		if c.Blocks[i].K == "table" && c.Blocks[i-1].K == "li" && !blank(c.Blocks[i-1].T) {
+			return true
+		}
+	}
+	return false
+}
+
 func bitsSet(m int) int {
 	n := 0
 	for ; m != 0; m &= m - 1 {
@@ -772,20 +895,23 @@ func tableBetweenParagraphs(c Case) bool {
 func TestC20(t *testing.T) {
 	kit.Main(t, kit.Spec[Case]{
 		ID: "C20", Level: "exploration",
-		Rule: "document of 1-10 (thorough 1-16) blocks drawn from headings 1-9, paragraphs of 1-5 runs (bold/italic/strike/code-font combinations), bullet and numbered list items, Quote and CodeBlock paragraphs, 1-5 x 1-5 tables (bold or plain first row, empty cells) and empty paragraphs, in any interleaving, under every combination of export options (GFM/simple tables, setext, three bullet markers, two emphasis markers, wrapping at 1..80, metadata); modes clean (~45 %: safe alphabet, single formats), benign (~37 %: plus lists, code blocks, empty paragraphs, plain table headers, multi-format runs, Heading7-9) and wild (~18 %: hostile text classes, blanks at run edges, touching formatted runs, intraword underscore, code+emphasis, pipes in cells, simple tables, metadata, wrapped formatted text, list directly before a paragraph); non-trivial = a table between two text blocks, >= 2 formatted runs and >= 3 block kinds; distinct = distinct sequence of (block kind, heading level, run format masks, table size) + options + finding classes the case is in",
+		Rule: "document of 1-10 (thorough 1-16) blocks drawn from headings 1-9, paragraphs of 1-5 runs (bold/italic/strike/code-font combinations), bullet and numbered list items, Quote and CodeBlock paragraphs, 1-5 x 1-5 tables (bold or plain first row, empty cells) and empty paragraphs, in any interleaving (a list item directly before a table in a quarter of the cases), under every combination of export options (GFM/simple tables, setext, three bullet markers, two emphasis markers, wrapping at 1..80, metadata); the options reach the exporter as the caller's own struct (~78 %) or through DefaultExportOptions(), NewExporter(nil)+nil options, HighQualityExportOptions(); in half of the cases 1-2 other exports (HighQualityExportOptions, a customised copy-by-pointer of what DefaultExportOptions returned, another struct, nil options) run between the judged exports; modes clean (~45 %: safe alphabet, single formats), benign (~38 %: plus lists, code blocks, empty paragraphs, plain table headers, multi-format and code+emphasis runs, Heading7-9, ASCII and Unicode blanks at the edges of formatted runs and headings) and wild (~17 %: Markdown syntax in text, touching formatted runs, intraword underscore, pipes in cells, wrapped formatted text); non-trivial = a table between two text blocks, >= 2 formatted runs and >= 3 block kinds; distinct = distinct sequence of (block kind, heading level, run format masks, table size) + options + finding classes the case is in",
 		Gen:  genCase, Run: run, Findings: findings, Fixed: fixedCases,
 		Assumptions: []string{
 			"goldmark v1.7.8 with extension.GFM is the reference reading of the exported Markdown (CommonMark 0.31 + GFM tables/strikethrough/autolinks); backslash escapes and entities are resolved as a renderer would, autolink labels count as text",
 			"a leading '---' metadata block is removed before the reference parse when IncludeMetadata is set (front matter is outside CommonMark)",
 			"block text is compared after collapsing whitespace runs; paragraphs without visible text are not expected in the Markdown; heading levels 7-9 may come out at any level; ordered vs bullet marker of a list item is not judged",
 			"the re-imported document is observed through Body.Elements (paragraph style / numbering properties / tables), default ConvertOptions",
-			"exact masks: for the findings with one predictable effect (tables last, '• ' paragraphs for items, extra blank line in re-exported fences, blank lines of empty paragraphs, bold first table row, flattened nested emphasis, Heading7/9 -> italic Heading6, front matter read back as a heading) the failing clause is re-judged against the body after exactly that effect and waived only if it then holds; label fully-judged = no clause of E1-E5 is waived for the case's input class (unmasked = not even an exact mask applies)",
+			"exact masks: for the findings with one predictable effect ('• ' paragraphs for items, simple tables read as paragraph text, extra blank line in re-exported fences, blank lines of empty paragraphs, bold first table row, flattened nested emphasis, Heading7/9 -> italic Heading6, front matter read back as a heading) the failing clause is re-judged against the body after exactly that effect and waived only if it then holds; label fully-judged = no clause of E1-E5 is waived for the case's input class (unmasked = not even an exact mask applies)",
 			"C20.E2r (letters and digits of the raw Markdown = letters and digits of the body text, in order) is judged on every case without any mask",
+			"C20.E6 (stability): the document exported again with the same requested options, obtained the same way, after the other exports of the case's history, is byte-identical to the first export; no mask. For options taken from the library's constructors the requested values are the documented ones (defaults; HighQuality = defaults + metadata)",
+			"a simple (non-GFM) table is judged against the reference reading of exactly the lines the open finding describes, standing as a block of their own: absorbed into a neighbour, missing rows or a wrong position stay violations",
 		},
 		MustSee: map[string]float64{"fully-judged": 0.8, "unmasked": 0.38, "fully-judged:table-between-paragraphs": 0.12, "fully-judged:formatted-runs>=2": 0.25,
 			"fully-judged:kind:li": 0.1, "fully-judged:kind:code": 0.04, "fully-judged:kind:q": 0.2, "fully-judged:kind:empty": 0.015,
 			"table-between-paragraphs": 0.15, "formatted-runs>=2": 0.3, "opt:setext": 0.3, "opt:wrap": 0.2,
-			"opt:simple-tables": 0.008, "opt:metadata": 0.008, "kind:table": 0.4, "run:multi-format": 0.02,
-			"class-mask:KF-C20-no-escape": 0.02, "class-mask:KF-C20-edge-blank": 0.01, "class-mask:KF-C20-delimiter-context": 0.01},
+			"opt:simple-tables": 0.06, "opt:metadata": 0.008, "kind:table": 0.4, "run:multi-format": 0.02,
+			"class-mask:KF-C20-no-escape": 0.02, "class-mask:KF-C20-delimiter-context": 0.01,
+			"edge-blank:unicode": 0.02, "hist:any": 0.3, "hist:mutdefault": 0.15, "hist:hq": 0.08, "via:default": 0.04, "via:nilexp": 0.03, "via:hq": 0.03, "simple-table-after-item": 0.01},
 	})
 }
